@@ -34,7 +34,7 @@ func c03Docs(x *mc.Exec) {
 
 // ---- Include histories -------------------------------------------------------
 
-var c03Primaries = []string{"soft t/1", "wrapped t/1", "Resources[t/1 t/2 u/1]", "SoftCollection[t/1 t/2]", "WrapperCollection[t/1 t/2]", "nil", "Resources[]"}
+var c03Primaries = []string{"soft t/1", "wrapped t/1", "Resources[t/1 t/2 u/1]", "SoftCollection[t/1 t/2]", "WrapperCollection[t/1 t/2]", "nil", "Resources[]", "Resources[12 members in descending id order]", "Resources[12 members in scrambled id order]"}
 
 type c03Sys struct {
 	primary int
@@ -52,8 +52,9 @@ func c03IncludePool() ([]func() j.Resource, []string) {
 	}
 	return []func() j.Resource{
 			mk(docT, true, "1"), mk(docT, false, "1"), mk(docT, true, "2"), mk(docU, true, "1"), mk(docU, false, "1"), mk(docU, true, "2"), mk(docT, true, "3"),
+			mk(docT, true, "r03"), mk(docT, true, "r10"),
 		}, []string{
-			"Include(soft t/1)", "Include(wrapped t/1)", "Include(soft t/2)", "Include(soft u/1)", "Include(wrapped u/1)", "Include(soft u/2)", "Include(soft t/3)",
+			"Include(soft t/1)", "Include(wrapped t/1)", "Include(soft t/2)", "Include(soft u/1)", "Include(wrapped u/1)", "Include(soft u/2)", "Include(soft t/3)", "Include(soft t/r03)", "Include(soft t/r10)",
 			// the primary data may still grow (or be assigned) between two Include calls
 			"primary data gains t/3",
 		}
@@ -87,6 +88,17 @@ func c03New(primary int) *c03Sys {
 		col := j.WrapCollection(docT.NewRes(false))
 		col.Add(docRes(docT, false, "1", 0))
 		col.Add(docRes(docT, false, "2", 1))
+		doc.Data = col
+	case 7, 8:
+		// larger than any small-collection fast path, and not in ascending id order
+		col := &j.Resources{}
+		for i := 0; i < 12; i++ {
+			k := 11 - i
+			if primary == 8 {
+				k = (i*5 + 3) % 12
+			}
+			col.Add(docRes(docT, true, fmt.Sprintf("r%02d", k), i))
+		}
 		doc.Data = col
 	case 5:
 		doc.Data = nil
@@ -174,7 +186,7 @@ func init() {
 	}
 	Register(&Prop{
 		ID:          "C03",
-		Rule:        "Engine A: the complete product 19 primary-data kinds (nil, soft/wrapped/escape-needing/ID-less resource, resources with every kind at its extremes, Resources/SoftCollection/WrapperCollection of 0..3, Identifier, Identifiers of 0/2) x 5 included lists x 4 metas x 3 error lists x 6 path prefixes (with / without / with several trailing slashes) x 3 field selections x 2 relationship-data requests; every successful marshal is parsed by an independent JSON:API structure validator (jsonapi member, self link, data xor errors, included only with data, resource-object type/id/self link = prefix+type+id, relationship links and data shape). Engine B: for 7 primary-data implementations, ALL sequences (depth <= 4 quick / 6 thorough) of Include over 7 resources colliding with primary data, with each other (same pair as a different object / implementation) or with nothing, interleaved with the primary data gaining a resource (collection Add / Data assigned late); after every Include the marshaled document is validated and no type/ID pair may appear twice. Non-trivial = distinct successful output",
+		Rule:        "Engine A: the complete product 19 primary-data kinds (nil, soft/wrapped/escape-needing/ID-less resource, resources with every kind at its extremes, Resources/SoftCollection/WrapperCollection of 0..3, Identifier, Identifiers of 0/2) x 5 included lists x 4 metas x 3 error lists x 6 path prefixes (with / without / with several trailing slashes) x 3 field selections x 2 relationship-data requests; every successful marshal is parsed by an independent JSON:API structure validator (jsonapi member, self link, data xor errors, included only with data, resource-object type/id/self link = prefix+type+id, relationship links and data shape). Engine B: for 9 primary-data implementations (incl. collections of 12 members in descending / scrambled id order), ALL sequences (depth <= 4 quick / 6 thorough) of Include over 9 resources colliding with primary data, with each other (same pair as a different object / implementation) or with nothing, interleaved with the primary data gaining a resource (collection Add / Data assigned late); after every Include the marshaled document is validated and no type/ID pair may appear twice. Non-trivial = distinct successful output",
 		Assumptions: []string{"non-empty type names; a resource without ID must still carry a string id member, but the text of its links is not judged beyond the library's own convention (bare prefix)", "uniqueness applies to resource objects (an identifier in data plus the full resource in included is fine)"},
 		Harnesses:   hs,
 	})
